@@ -15,7 +15,7 @@ func on() bool { return Enabled && vsched.Managed() }
 
 func CompareAndSwapInt32(addr *int32, old, new int32) bool {
 	if on() {
-		vsched.Op("cas", nil, old, new)
+		vsched.OpOn(addr, "cas", nil, old, new)
 	}
 	ok := atomic.CompareAndSwapInt32(addr, old, new)
 	if on() {
@@ -26,7 +26,7 @@ func CompareAndSwapInt32(addr *int32, old, new int32) bool {
 
 func LoadInt32(addr *int32) int32 {
 	if on() {
-		vsched.Op("load", nil)
+		vsched.OpOn(addr, "load", nil)
 	}
 	v := atomic.LoadInt32(addr)
 	if on() {
@@ -37,7 +37,7 @@ func LoadInt32(addr *int32) int32 {
 
 func SwapInt32(addr *int32, new int32) int32 {
 	if on() {
-		vsched.Op("swap", nil, new)
+		vsched.OpOn(addr, "swap", nil, new)
 	}
 	v := atomic.SwapInt32(addr, new)
 	if on() {
@@ -48,7 +48,7 @@ func SwapInt32(addr *int32, new int32) int32 {
 
 func StoreInt32(addr *int32, v int32) {
 	if on() {
-		vsched.Op("store", nil, v)
+		vsched.OpOn(addr, "store", nil, v)
 	}
 	atomic.StoreInt32(addr, v)
 	if on() {
@@ -58,7 +58,7 @@ func StoreInt32(addr *int32, v int32) {
 
 func AddInt32(addr *int32, d int32) int32 {
 	if on() {
-		vsched.Op("add", nil, d)
+		vsched.OpOn(addr, "add", nil, d)
 	}
 	v := atomic.AddInt32(addr, d)
 	if on() {
@@ -69,7 +69,7 @@ func AddInt32(addr *int32, d int32) int32 {
 
 func AddInt64(addr *int64, d int64) int64 {
 	if on() {
-		vsched.Op("add", nil, d)
+		vsched.OpOn(addr, "add", nil, d)
 	}
 	v := atomic.AddInt64(addr, d)
 	if on() {
@@ -80,7 +80,7 @@ func AddInt64(addr *int64, d int64) int64 {
 
 func LoadInt64(addr *int64) int64 {
 	if on() {
-		vsched.Op("load", nil)
+		vsched.OpOn(addr, "load", nil)
 	}
 	v := atomic.LoadInt64(addr)
 	if on() {
@@ -91,7 +91,7 @@ func LoadInt64(addr *int64) int64 {
 
 func StoreInt64(addr *int64, v int64) {
 	if on() {
-		vsched.Op("store", nil, v)
+		vsched.OpOn(addr, "store", nil, v)
 	}
 	atomic.StoreInt64(addr, v)
 	if on() {
@@ -101,7 +101,7 @@ func StoreInt64(addr *int64, v int64) {
 
 func CompareAndSwapInt64(addr *int64, old, new int64) bool {
 	if on() {
-		vsched.Op("cas", nil, old, new)
+		vsched.OpOn(addr, "cas", nil, old, new)
 	}
 	ok := atomic.CompareAndSwapInt64(addr, old, new)
 	if on() {
